@@ -41,6 +41,8 @@ type c05In struct {
 	M       int       `json:"m,omitempty"`     // kind rrseq: number of consecutive Selects
 	Conc    *c04Conc  `json:"conc,omitempty"`  // kind retryconc: concurrent schedule (c05_conc.go, machinery of c04_conc.go)
 	RRB     *c05RRB   `json:"rrb,omitempty"`   // kind rrblocks: several round_robin blocks served alternately (c05_conc.go)
+	Mid     *c04In    `json:"mid,omitempty"`   // kind retrymid: backends that die mid-body (c05_seq.go, machinery of c04_retry.go)
+	Seq     *c05Seq   `json:"seq,omitempty"`   // kind retryseq: several requests over time through one proxy (c05_seq.go)
 }
 
 // setRobin sets the unexported uint32 counter of a RoundRobin policy (4 * 10^9 Selects are not replayed)
@@ -128,6 +130,10 @@ func c05Run(in0 interface{}) Result {
 		return c05RunRetryConc(in)
 	case "rrblocks":
 		return c05RunRRBlocks(in)
+	case "retrymid":
+		return c05RunRetryMid(in)
+	case "retryseq":
+		return c05RunRetrySeq(in)
 	case "rrseq":
 		rr := &proxy.RoundRobin{}
 		setRobin(rr, in.Robin)
@@ -476,8 +482,17 @@ func c05Gen(r *Rand, tier string) []interface{} {
 	// own random stream for the kinds below: the cases above do not depend on how many are drawn
 	rs := NewRand(r.U64())
 	nConc, nBlocks := 24, 120
+	nMid, nSeq := 48, 60
 	if tier == "thorough" {
 		nConc, nBlocks = 240, 1200
+		nMid, nSeq = 480, 600
+	}
+	rq := NewRand(r.U64())
+	for i := 0; i < nMid; i++ {
+		out = append(out, &c05In{Kind: "retrymid", Mid: c04GenRetryBody(rq, i)})
+	}
+	for i := 0; i < nSeq; i++ {
+		out = append(out, c05GenRetrySeq(rq, i))
 	}
 	for i := 0; i < nBlocks; i++ {
 		out = append(out, c05GenRRBlocks(rs, i))
@@ -497,7 +512,7 @@ func (r *Rand) Pick2(xs ...int) int { return xs[r.Intn(len(xs))] }
 func init() {
 	register(&Property{
 		ID: "C05", Imports: "V.Lib V.C05_Model", Judge: "judge",
-		Rule: "exhaustive pools (size<=5 quick, <=8 thorough) x every availability vector x every policy x keys covering every hash residue, plus random pools/states through the exported policy types and through staticUpstream.Select (parsed proxy block), plus Proxy.ServeHTTP retry runs against loopback backends with scripted failures; retryconc: concurrent schedules in a child process (GOMAXPROCS/GC pinned) - requests with unique body patterns through one proxy with 2-3 hosts, try_duration and fail_timeout > 0, first attempts failing after the body was read, and between a failure and its retry other responses are relayed through the pooled buffers and LATE requests start and buffer their bodies: every attempt's body bytes are judged against the request's own pattern; rrblocks: 2-4 `policy round_robin` blocks parsed from one text and served alternately through Proxy.ServeHTTP, fairness judged per block; non-trivial = some but not all hosts available / a retry with at least one failing available host / a concurrent schedule with >= 2 requests one of which retries a non-empty body / >= 2 blocks with >= 2 available hosts and >= 4 requests",
+		Rule: "exhaustive pools (size<=5 quick, <=8 thorough) x every availability vector x every policy x keys covering every hash residue, plus random pools/states through the exported policy types and through staticUpstream.Select (parsed proxy block), plus Proxy.ServeHTTP retry runs against loopback backends with scripted failures; retryconc: concurrent schedules in a child process (GOMAXPROCS/GC pinned) - requests with unique body patterns through one proxy with 2-3 hosts, try_duration and fail_timeout > 0, first attempts failing after the body was read, and between a failure and its retry other responses are relayed through the pooled buffers and LATE requests start and buffer their bodies: every attempt's body bytes are judged against the request's own pattern; rrblocks: 2-4 `policy round_robin` blocks parsed from one text and served alternately through Proxy.ServeHTTP, fairness judged per block; retrymid: one request whose first attempts reach backends that read k body bytes and die (scripted and real transport), every attempt judged on its bytes and its announced Content-Length; retryseq: 2-5 requests over time through one proxy with scripts that continue across requests, Fails of every host read at the start and end of every request and after the last one; non-trivial = a backend died with 0 < k < len bytes read / a sequence of >= 2 requests with a failed forward / some but not all hosts available / a retry with at least one failing available host / a concurrent schedule with >= 2 requests one of which retries a non-empty body / >= 2 blocks with >= 2 available hosts and >= 4 requests",
 		Gen:    c05Gen,
 		Decode: func(raw json.RawMessage) (interface{}, error) { in := &c05In{}; return in, json.Unmarshal(raw, in) },
 		Run:    c05Run,
